@@ -6,8 +6,10 @@
 (*   k = "zip"     list(zipper(args..))            k = "lens"   lens(args..)                     *)
 (*   k = "norm"    as_list / as_tuple applied once and twice                                   *)
 (*   k = "waiter"  one schedule: the structure, the results, the order in which the driver     *)
-(*                 completed the futures, whether the waiter task was done after each          *)
-(*                 completion, and what it returned                                            *)
+(*                 released the awaitables (coroutines are un-started when handed over and may *)
+(*                 wait for another one to start), which coroutines were running before the    *)
+(*                 first release, whether the waiter task was done before each release and     *)
+(*                 after the last one, and what it returned                                    *)
 (* with the encoded outcome (a value or <<"exc", class>>).  Verdict(o) = "" when the           *)
 (* specification explains the observation, otherwise the name of the failing clause.           *)
 EXTENDS Lift, Batch
@@ -62,7 +64,11 @@ VWaiter(o) ==
         Vf  == [i \in ids |-> o.vals[CHOOSE k \in 1..Len(o.vals) : o.vals[k][1] = i][2]]
     IN  IF {o.order[k] : k \in 1..n} # ids \/ n # Cardinality(ids) \/ Len(o.done) # n + 1 THEN "harness_schedule"
         ELSE IF \E k \in 1..n : o.done[k] THEN "waiter_returned_early"          \* done[k]: after k-1 completions
-        ELSE IF ~o.done[n + 1] THEN "waiter_not_terminated"
+        \* every awaitable has been released and the loop stepped: waiter must be back
+        ELSE IF ~o.done[n + 1] THEN "waiter_never_returns"
+        \* the law: once waiter has been called every awaitable is running - o.started are the
+        \* coroutines that had taken their first step before the driver released anything
+        ELSE IF {o.started[k] : k \in 1..Len(o.started)} # CoroIds(o.tree) THEN "waiter_not_all_started"
         ELSE IF o.out # RunOrder(o.tree, o.order, 1, Vf) THEN
                  (IF IsExc(o.out) THEN "waiter_raised" ELSE IF ~SameShape(o.tree, o.out) THEN "waiter_shape" ELSE "waiter_result")
         ELSE IF o.out # Subst(o.tree, ids, Vf) THEN "waiter_order_dependent"
